@@ -1,6 +1,8 @@
 """C02 - every isometry the library builds preserves the Minkowski form and distances.
 
 Engine P: every generator of every constructor alphabet on its own (with its inverse).
+(Coxeter generators also from a group object that was first asked for another representation -
+diagonalised Tits-Vinberg with non-default parameters, S C S, canonical, ... - before hyperbolic_rep().)
 Engine E: Cayley-graph BFS over words in a reduced generator alphabet and inverses; a history is
 a list of [generator descriptor, exponent]; the case function rebuilds the isometries with the
 real constructors, composes them with `@` / `.inv()` and evaluates the invariants.
@@ -74,6 +76,55 @@ def cox_signature(mat):
     return int(np.sum(ev > 0)), int(np.sum(ev < 0)), float(np.min(np.abs(ev)))
 
 
+def cox_cosine(mat):
+    m = np.array(mat, dtype=float)
+    with np.errstate(divide="ignore"):
+        return -np.cos(np.pi / np.where(m <= 0, np.inf, m))
+
+
+# what the SAME group object is asked for before hyperbolic_rep() is taken (all legal, unrelated requests)
+COX_PRIORS = ["tits_vinberg_diag", "cartan_signed_diag", "geometric_diag", "canonical", "canonical_diag", "hyperbolic_rep"]
+
+
+def cox_tv_parameters(mat):
+    """Non-default Tits-Vinberg parameters {(i, j): value} for the pairs with an infinite label
+    (written negative: INF = -1), i < j; the default entry of the Cartan matrix is -2."""
+    n = len(mat)
+    return {(i, j): -3.0 - 0.5 * (i + j) for i in range(n) for j in range(i + 1, n) if mat[i][j] < 0}
+
+
+def cox_prior_ok(mat, prior):
+    """Is the earlier request defined for this group?  tits_vinberg_diag: the group has an infinite
+    label and the deformed symmetric Cartan matrix is non-degenerate (|eigenvalue| > 1e-3)."""
+    if prior != "tits_vinberg_diag":
+        return True
+    par = cox_tv_parameters(mat)
+    if not par:
+        return False
+    C = 2.0 * cox_cosine(mat)
+    for (i, j), x in par.items():
+        C[i, j] = C[j, i] = x
+    return float(np.min(np.abs(np.linalg.eigvalsh(C / 2.0)))) > 1e-3
+
+
+def cox_request(G, mat, prior):
+    """Ask the group object for another representation (the result is discarded)."""
+    if prior == "tits_vinberg_diag":
+        return G.tits_vinberg_rep(cox_tv_parameters(mat), diagonalize=True)
+    if prior == "cartan_signed_diag":         # S C S, S = diag(+1,-1,+1,..): a symmetric Cartan matrix of the same group
+        sg = np.array([(-1.0) ** i for i in range(len(mat))])
+        return G.cartan_representation(2.0 * cox_cosine(mat) * sg[:, None] * sg[None, :], diagonalize=True)
+    if prior == "geometric_diag":
+        return G.geometric_representation(diagonalize=True)
+    if prior == "canonical":
+        return G.canonical_representation()
+    if prior == "canonical_diag":
+        return G.canonical_representation(diagonalize=True)
+    if prior == "hyperbolic_rep":
+        return G.hyperbolic_rep()
+    raise ValueError(prior)
+
+
 # ------------------------------------------------------------------------------------------
 # building generators with the real constructors
 # ------------------------------------------------------------------------------------------
@@ -92,7 +143,7 @@ def gen_class(desc):
     if k == "sl2":
         return "det%+d" % int(round(np.linalg.det(np.array(desc[1], dtype=float))))
     if k == "coxeter":
-        return "rank%d" % len(cox_matrix(desc[1]))
+        return "rank%d" % len(cox_matrix(desc[1])) + ("/after-other-request" if len(desc) > 3 else "")
     return "all"
 
 
@@ -143,12 +194,14 @@ def build_gen(desc):
         return H.timelike_to(np.array(desc[1], dtype=float), force_oriented=desc[2])
     if k == "spacelike_to":
         return H.spacelike_to(np.array(desc[1], dtype=float), force_oriented=desc[2])
-    if k == "coxeter":                        # [.., ["tri",p,q,r] | ["mat", M], generator index]
+    if k == "coxeter":                        # [.., ["tri",p,q,r] | ["mat", M], generator index (, earlier request)]
         from geometry_tools.coxeter import CoxeterGroup, TriangleGroup
         if desc[1][0] == "tri":
             G = TriangleGroup(tuple(desc[1][1:4]))
         else:
             G = CoxeterGroup(matrix=desc[1][1])
+        if len(desc) > 3:                     # the same group object has been asked for something else before
+            cox_request(G, cox_matrix(desc[1]), desc[3])
         rep = G.hyperbolic_rep()
         return rep[G.ordered_gens[desc[2]]]
     raise ValueError(k)
@@ -465,6 +518,18 @@ def rank4_matrices():
     return [m for m in out if cox_signature(m)[:2] == (3, 1) and cox_signature(m)[2] > 1e-3]
 
 
+def rank4_noncompact():
+    """Rank 4 with infinite labels (written -1): linear diagrams [p, q, inf], [p, inf, r], a cycle and the
+    complete graph on inf, kept when the oracle's cosine form has signature (3,1), |eigenvalue| > 1e-3."""
+    out = []
+    for p, q, r in ([3, 3, INF], [3, 4, INF], [4, 3, INF], [3, INF, 3], [INF, 3, INF], [3, 6, INF], [INF, INF, INF]):
+        out.append([[1, p, 2, 2], [p, 1, q, 2], [2, q, 1, r], [2, 2, r, 1]])
+    out.append([[1, 3, 2, INF], [3, 1, 3, 2], [2, 3, 1, 3], [INF, 2, 3, 1]])
+    out.append([[1, INF, INF, INF], [INF, 1, INF, INF], [INF, INF, 1, INF], [INF, INF, INF, 1]])
+    out.append([[1, 3, 3, INF], [3, 1, 3, 3], [3, 3, 1, 3], [INF, 3, 3, 1]])
+    return [m for m in out if cox_signature(m)[:2] == (3, 1) and cox_signature(m)[2] > 1e-3]
+
+
 def full_alphabet(n, seed, quick):
     G = []
     P = proj_points(n, seed)
@@ -511,10 +576,20 @@ def full_alphabet(n, seed, quick):
             for p in perms:
                 for g in range(3):
                     G.append(["coxeter", ["tri"] + list(p), g])
+            # hyperbolic_rep() of a group object that was asked for another representation first
+            for p in ([tri] if quick else sorted({p for p in itertools.permutations(tri)})):
+                for prior in COX_PRIORS:
+                    if cox_prior_ok(cox_matrix(["tri"] + list(p)), prior):
+                        for g in range(3):
+                            G.append(["coxeter", ["tri"] + list(p), g, prior])
     if n == 3:
-        for m in rank4_matrices():
+        for m in rank4_matrices() + rank4_noncompact():
             for g in range(4):
                 G.append(["coxeter", ["mat", m], g])
+            for prior in COX_PRIORS:
+                if cox_prior_ok(m, prior):
+                    for g in range(4):
+                        G.append(["coxeter", ["mat", m], g, prior])
     N = normals(n, seed)
     for v in N:
         G.append(["reflection", v])
@@ -617,6 +692,8 @@ def build_composite(case):
     if k == "coxeter_words":                  # units = words in the generators; shape = (len(words),)
         G = _cox_group(case["group"])
         gens = list(G.ordered_gens)
+        if case.get("prior"):
+            cox_request(G, cox_matrix(case["group"]), case["prior"])
         return G.hyperbolic_rep().isometries(["".join(gens[i] for i in w) for w in U])
     if k == "sl2":                            # units = 2x2 matrices, array of shape (..., 2, 2)
         arr = np.array(U, dtype=float).reshape(shape + (2, 2))
@@ -653,7 +730,9 @@ def case_composite(case):
     k, n, shape, seed = case["ctor"], case["n"], tuple(case["shape"]), case["seed"]
     site = COMPOSITE_SITE[k]
     cls = "composite-rank%d" % len(shape)
-    who = "H^%d %s of a composite of shape %r (%s)" % (n, site, shape, {kk: vv for kk, vv in case.items() if kk in ("fo", "variant", "group")})
+    who = "H^%d %s of a composite of shape %r (%s)" % (n, site, shape, {kk: vv for kk, vv in case.items() if kk in ("fo", "variant", "group", "prior")})
+    if case.get("prior"):
+        cls += "/after-other-request"
     G = build_composite(case)
     t = 1
     M = np.asarray(G.matrix)
@@ -724,6 +803,16 @@ def composite_cases(n, seed, quick):
         for L in (1, 2, 3):
             words = [list(w) for w in itertools.product(range(r), repeat=L)]
             out.append({"n": n, "shape": [len(words)], "seed": seed, "ctor": "coxeter_words", "group": grp, "units": words})
+    # ... of a group object that was asked for another representation first
+    groups = {2: [["tri", 3, 3, INF], ["tri", 2, 4, INF], ["tri", INF, INF, INF], ["tri", 2, 4, 5]],
+              3: [["mat", m] for m in rank4_noncompact()[:2] + rank4_matrices()[:1]]}.get(n, [])
+    for grp in groups:
+        r = len(cox_matrix(grp))
+        words = [list(w) for w in itertools.product(range(r), repeat=2)]
+        for prior in COX_PRIORS:
+            if cox_prior_ok(cox_matrix(grp), prior):
+                out.append({"n": n, "shape": [len(words)], "seed": seed, "ctor": "coxeter_words", "group": grp, "units": words,
+                            "prior": prior})
     return out
 
 
@@ -853,6 +942,9 @@ def run(ctx):
     ctx.assume("reflection normals and spacelike_to arguments are spacelike with relative margin >= 0.1; composite normals use the library's (..., 1, n+1) layout")
     ctx.assume("2x2 matrices have determinant +1 or -1 (integer entries in [-2, 2])")
     ctx.assume("Coxeter matrices are those whose cosine form has signature (d,1) with |eigenvalue| > 1e-3 according to the oracle")
+    ctx.assume("hyperbolic_rep() is a function of the group: descriptors ['coxeter', group, generator, earlier request] take it from a group "
+               "object that was first asked for one of %s (Tits-Vinberg parameters -3 - (i+j)/2 on the pairs with label -1, only when the "
+               "deformed symmetric Cartan matrix has |eigenvalue| > 1e-3; S C S with S = diag(+1,-1,+1,..)); the earlier result is discarded" % COX_PRIORS)
     ctx.assume("d(x,x) after = before is not demanded here (C01 clause); pairs of distinct lattice points only")
     ctx.assume("library predicates timelike()/lightlike()/spacelike() (absolute threshold 1e-8) are read only when |M|_2 <= 1e3; "
                "test vectors have relative margin 1e-3")
